@@ -11,7 +11,7 @@
 
    The statements below are about the functions of ArithGen.v, which is
    regenerated from /repo/pkg/reflectmath.go on every run. *)
-From Grule Require Import Base Values ArithGen C19Proof.
+From Grule Require Import Base Values CmpGen C19Proof.
 
 Theorem C19_ordered : C19_ordered_statement.
 Proof. exact C19_ordered_proved. Qed.
